@@ -13,13 +13,13 @@
                                            several bytes >= 0x80: documented divergence)
      strings.TrimSuffix  trim_suffix_char
      regexp `\s+`        is_re_space       [\t\n\f\r ]   (not \v)
-     sort.Ints           isort
+     sort.Ints           sort_ints (merge sort)
      strings.Map upper   to_upper          ASCII a-z only (bytes >= 0x80 unchanged; Go rewrites invalid
                                            UTF-8 to U+FFFD, which never equals an ASCII glossary entry)
    The four field regular expressions are written out as the recognisers they denote; genparams fails
    closed if their sources change. *)
 From Coq Require Import ZArith List Bool Ascii String.
-Require Import QzBase.Fields QzParser.Gen.Params.
+Require Import QzBase.Fields QzParser.Gen.Params QzParser.ZSort.
 Import ListNotations.
 Open Scope Z_scope.
 
@@ -41,7 +41,7 @@ Fixpoint bytes_eqb (a b : bytes) : bool :=
   | _, _ => false
   end.
 
-Definition code (c : ascii) : Z := Z.of_nat (nat_of_ascii c).
+Definition code (c : ascii) : Z := Z.of_N (N_of_ascii c).
 
 (* ---- comparison operators copied from the source ---- *)
 Definition cmp (op : cmp_op) (a b : Z) : bool :=
@@ -149,7 +149,7 @@ Definition atoi (s : bytes) : option Z :=
 
 (* ---- util.go ---- *)
 Definition to_upper (c : ascii) : ascii :=
-  if is_lower c then ascii_of_nat (nat_of_ascii c - 32)%nat else c.
+  if is_lower c then ascii_of_N (N_of_ascii c - 32)%N else c.
 
 Fixpoint index_of (x : bytes) (l : list bytes) (i : Z) : option Z :=
   match l with
@@ -187,8 +187,14 @@ Definition extract_values (r : ascii) (parsed : list bytes) : list bytes * list 
 Definition extract_step_values := extract_values go_stepRune.
 Definition extract_range_values := extract_values go_rangeRune.
 
-Definition zrange (from to : Z) : list Z :=
-  map (fun i => from + Z.of_nat i) (seq 0 (Z.to_nat (to - from + 1))).
+(* the loops `for i := from; i <= to; i += step` of fillRangeValues / fillStepValues, n iterations *)
+Fixpoint count_up (n : nat) (from step : Z) : list Z :=
+  match n with
+  | O => []
+  | S k => from :: count_up k (from + step) step
+  end.
+
+Definition zrange (from to : Z) : list Z := count_up (Z.to_nat (to - from + 1)) from 1.
 
 (* fillRangeValues *)
 Definition fill_range_values (from to : Z) : result (list Z) :=
@@ -198,16 +204,11 @@ Definition fill_range_values (from to : Z) : result (list Z) :=
    run away; the callers' inScope test excludes it). *)
 Definition fill_step_values (from step upper : Z) : result (list Z) :=
   if (upper <? from) || (step =? 0) then ParseError
-  else Ok (map (fun j => from + Z.of_nat j * step) (seq 0 (Z.to_nat ((upper - from) / step + 1)))).
+  else Ok (count_up (Z.to_nat ((upper - from) / step + 1)) from step).
 
-(* sort.Ints *)
-Fixpoint insert_sorted (x : Z) (l : list Z) : list Z :=
-  match l with
-  | [] => [x]
-  | y :: l' => if x <=? y then x :: l else y :: insert_sorted x l'
-  end.
-Fixpoint isort (l : list Z) : list Z :=
-  match l with [] => [] | x :: l' => insert_sorted x (isort l') end.
+(* sort.Ints: the result of sorting integers does not depend on the algorithm; the model uses the
+   standard library's merge sort (ZSort.v) *)
+Definition sort_ints (l : list Z) : list Z := ZSort.sort l.
 
 (* ---- cron.go: field parsers.  A parsed field is (values, n). ---- *)
 Definition cron_field : Type := list Z * Z.
@@ -274,7 +275,7 @@ Definition parse_list_field (field : bytes) (bound : boundary) (names : list byt
   else
     do sv <- parse_each (fun v => parse_step_field v bound names) step_values;
     do rv <- parse_each (fun v => parse_range_field v bound names) range_values;
-    Ok (new_cron_field (isort (list_values ++ sv ++ rv)%list)).
+    Ok (new_cron_field (sort_ints (list_values ++ sv ++ rv)%list)).
 
 (* parseField *)
 Definition parse_field (field : bytes) (bound : boundary) (names : list bytes) : result cron_field :=
